@@ -268,6 +268,16 @@ def replay_case(case):
         cmp("evaluate_density_gradient on an integer-typed lattice (vector law)", D.evaluate_density_gradient(P2, shells2, move(ipts)),
             D.evaluate_density_gradient(P, shells, ipts) @ G.T)
         cmp("evaluate_basis on an integer-typed lattice", ev(shells2, move(ipts)), R @ ev(shells, ipts))
+    # the 'direct' back-end at points ON a shell centre and on coordinate planes through it (first and second derivatives of
+    # x^n exp(-a x^2) at x = 0 are special-cased there): a general rotation moves such points off the planes
+    c_first = np.array([cg.val(x) for x in basis[0]["center"]])
+    c_last = np.array([cg.val(x) for x in basis[-1]["center"]])
+    ppts = np.array([c_first, c_last, c_first + np.array([0.0, 0.7, -0.4]), c_last + np.array([0.6, 0.0, 0.0]), c_first + np.array([0.3, 0.2, 0.0])])
+    for dt in ("direct", "general"):
+        cmp("evaluate_density_gradient(%s) on planes through the centres (vector law)" % dt,
+            D.evaluate_density_gradient(P2, shells2, move(ppts), deriv_type=dt), D.evaluate_density_gradient(P, shells, ppts, deriv_type=dt) @ G.T)
+        cmp("evaluate_density_laplacian(%s) on planes through the centres" % dt,
+            D.evaluate_density_laplacian(P2, shells2, move(ppts), deriv_type=dt), D.evaluate_density_laplacian(P, shells, ppts, deriv_type=dt))
     # points 1e-3 bohr from a nucleus (innermost shells of an atomic grid), no masking
     near = chg_pos[:2] + np.array([[6e-4, -5e-4, 6e-4], [-4e-4, 7e-4, 5e-4]])
     cmp("electrostatic_potential 1e-3 bohr from a nucleus", esp(shells2, P2, move(near), move(chg_pos), np.abs(chg)),
